@@ -933,3 +933,343 @@ def check_names_stateless(db, rep, rule):
     if n < 8:
         raise AnalysisBroken("only %d name helpers (functions returning char * in the x86 units) found" % n)
     return n
+
+
+def check_gp_name_width(db, rep, rule):
+    """The width of a general-register operand in the LISTING must follow the operand size the ENCODER uses.
+
+    For the instruction types whose arm in orc_x86_insn_output_opcode hands xinsn->size to output_opcode / orc_x86_emit_rex
+    (REX.W for size 8), every general register that orc_x86_insn_output_asm prints as a data operand (not as the base of a
+    memory operand) has to be named by a size-aware function.  An arm that always prints the 32-bit name
+    (orc_x86_get_regname) is a mismatch as soon as some emit site can produce an instruction of that type, in that operand
+    form, with size 8: the listing then reads `add %ecx, 24(%rdi)` where the bytes are `add %rcx, 24(%rdi)`.  Emit sites and
+    their size arguments are resolved through the emit functions' own assignments (xinsn->type / xinsn->size), conditional
+    expressions and up to three levels of forwarding parameters."""
+    from facts import AnalysisBroken, access_path, init_rows
+    from flow import Facts
+    tu = db.tu("orcx86insn")
+    enc, lst = tu.fn.get("orc_x86_insn_output_opcode"), tu.fn.get("orc_x86_insn_output_asm")
+    if enc is None or lst is None:
+        raise AnalysisBroken("orc_x86_insn_output_opcode / orc_x86_insn_output_asm not found")
+    rep.saw(enc)
+    rep.saw(lst)
+    tnames = {v: k[len("ORC_X86_INSN_TYPE_"):] for k, v in tu.enums.items() if k.startswith("ORC_X86_INSN_TYPE_")}
+    RM_REG = db.enum("ORC_X86_RM_REG")
+    # A. types whose encoding depends on xinsn->size
+    sized = set()
+    for sw in type_switches(enc):
+        for labels, stmts in switch_arms(sw):
+            for st in stmts:
+                for c in st.walk():
+                    if c.k == "CallExpr" and c.name in ("output_opcode", "orc_x86_emit_rex"):
+                        a = c.args()
+                        i = 2 if c.name == "output_opcode" else 1
+                        if len(a) > i and (access_path(strip_casts(a[i])) or "").endswith("->size"):
+                            sized |= {l for l in labels if l != "default"}
+    if len(sized) < 5:
+        raise AnalysisBroken("only %d size-dependent instruction types found in the encoder" % len(sized))
+    # B. arms of the listing that print a fixed 32-bit name
+    fixed = []
+    fcl = Facts(lst)
+    for sw in type_switches(lst):
+        for labels, stmts in switch_arms(sw):
+            for st in stmts:
+                for c in st.walk():
+                    if c.k == "CallExpr" and c.name == "orc_x86_get_regname" and c.args():
+                        opnd = unparse(strip_casts(c.args()[0]))
+                        conds = [(unparse(x[0]), x[1]) for x in fcl.conds(c) if x[0] != "switch"]
+                        under_reg = any(("xinsn->type" in t and "ORC_X86_RM_REG" in t and pol) or (t.replace(" ", "") in ("(xinsn->type==%d)" % RM_REG,) and pol) for t, pol in conds)
+                        # evaluate instead of matching text: is the call reachable with xinsn->type != RM_REG ?
+                        from exprval import reachable_under
+                        only_reg = not any(reachable_under(lst, {"xinsn->type": v, "xinsn->opcode->type": next(iter(l for l in labels if l != "default"), 0)},
+                                                           lambda e, c=c: e.id == c.id) for v in (db.enum("ORC_X86_RM_MEMOFFSET"), db.enum("ORC_X86_RM_MEMINDEX")))
+                        # labels of this arm under which the fixed 32-bit name is still printed when xinsn->size is 8
+                        forms = (RM_REG,) if only_reg else (RM_REG, db.enum("ORC_X86_RM_MEMOFFSET"), db.enum("ORC_X86_RM_MEMINDEX"))
+                        at8 = {l for l in labels if l != "default" and any(reachable_under(
+                            lst, {"xinsn->type": v, "xinsn->opcode->type": l, "xinsn->size": 8}, lambda e, c=c: e.id == c.id) for v in forms)}
+                        fixed.append((at8, opnd, only_reg, c))
+    # C. emit functions: which parameter is the size, which RM form do they build
+    rows = init_rows(tu.global_("orc_x86_opcodes"))
+    emit = {}
+    for g in tu.main_functions():
+        pn = [p_["name"] for p_ in g.params]
+        size_i = idx_i = rm = None
+        for x in g.walk():
+            if x.k == "BinaryOperator" and x.op == "=":
+                lp = access_path(x.c[0]) or ""
+                r = strip_casts(x.c[1])
+                if lp.endswith("->size") and r is not None and r.k == "DeclRefExpr" and r.name in pn:
+                    size_i = pn.index(r.name)
+                if lp.endswith("->type") and r is not None and r.v is not None:
+                    rm = r.v
+                if lp.endswith("->opcode_index") and r is not None and r.k == "DeclRefExpr" and r.name in pn:
+                    idx_i = pn.index(r.name)
+        if size_i is not None and idx_i is not None and rm is not None:
+            emit[g.name] = (idx_i, size_i, rm, None)
+    # thin wrappers: f (p, index, ..) { g (p, index, <const size>, ...); }
+    for g in tu.main_functions():
+        if g.name in emit or g.body is None:
+            continue
+        cs = [c for c in g.calls() if c.name in emit]
+        if len(cs) == 1 and len([x for x in g.body.kids() if x is not None]) == 1:
+            ii, si, rm, _ = emit[cs[0].name]
+            a = cs[0].args()
+            pn = [p_["name"] for p_ in g.params]
+            ia = strip_casts(a[ii])
+            sa = strip_casts(a[si])
+            if ia is not None and ia.k == "DeclRefExpr" and ia.name in pn and sa is not None and sa.v is not None:
+                emit[g.name] = (pn.index(ia.name), None, rm, sa.v)
+    if len(emit) < 6:
+        raise AnalysisBroken("only %d x86 emit functions with (index, size, form) recognised" % len(emit))
+    callers = db.callers()
+    from exprval import reachable_under
+    from flow import atom, single_defs
+
+    def alts(f, node, depth=0):
+        """[(value | ('param', name) | None, assumptions)] - assumptions: {access path: 0/1} from the conditions of ?: chosen"""
+        e = strip_casts(node)
+        if e is None:
+            return [(None, {})]
+        if e.v is not None:
+            return [(e.v, {})]
+        if e.k == "ParenExpr":
+            return alts(f, e.c[0], depth)
+        if e.k == "ConditionalOperator":
+            cn, pol = atom(e.c[0], True)
+            P = access_path(cn) if cn is not None else None
+            out = []
+            for arm, val in ((e.c[1], 1), (e.c[2], 0)):
+                for v, asm in alts(f, arm, depth):
+                    asm = dict(asm)
+                    if P is not None:
+                        want = val if pol else 1 - val
+                        if asm.get(P, want) != want:
+                            continue
+                        asm[P] = want
+                    out.append((v, asm))
+            return out
+        if e.k == "DeclRefExpr" and e.get("dk") == "param":
+            return [(("param", e.name), {})]
+        if e.k == "DeclRefExpr" and e.get("dk") == "local" and depth < 3:
+            d = single_defs(f).get(e.name)
+            if d is not None:
+                return alts(f, d, depth + 1)
+        return [(None, {})]
+
+    def feasible(f, call, env):
+        return reachable_under(f, env, lambda x: x.id == call.id)
+
+    def site_values(f, call, node):
+        """values `node` (an argument of `call` in f) can have when the call is reached"""
+        out = set()
+        for v, asm in alts(f, node):
+            if v is None:
+                out.add(None)
+            elif not isinstance(v, tuple):
+                if feasible(f, call, asm):
+                    out.add(v)
+            else:
+                pname = v[1]
+                pn = [p_["name"] for p_ in f.params]
+                cl = [(g, c) for g, c in callers.get(f.name, []) if g is not f]
+                if not cl:
+                    out.add(None)
+                for g, c2 in cl:
+                    a2 = c2.args()
+                    # alternatives of every argument the caller passes, with consistent assumptions
+                    combos = [({}, dict(asm))]
+                    for i_, pn_ in enumerate(pn):
+                        if i_ >= len(a2):
+                            continue
+                        sa = strip_casts(a2[i_])
+                        nxt = []
+                        for env0, asm0 in combos:
+                            for v2, asm2 in alts(g, a2[i_]):
+                                if any(asm0.get(k_, w_) != w_ for k_, w_ in asm2.items()):
+                                    continue
+                                e1 = dict(env0)
+                                if v2 is not None and not isinstance(v2, tuple):
+                                    e1[pn_] = v2
+                                m = dict(asm0)
+                                m.update(asm2)
+                                nxt.append((e1, m))
+                        combos = nxt or combos
+                    # translate assumption roots: caller variable passed as argument i -> callee parameter i
+                    ren = {}
+                    for i_, pn_ in enumerate(pn):
+                        if i_ < len(a2) and strip_casts(a2[i_]) is not None and strip_casts(a2[i_]).k == "DeclRefExpr":
+                            ren[strip_casts(a2[i_]).name] = pn_
+                    for env0, asm0 in combos:
+                        if pname not in env0:
+                            out.add(None)
+                            continue
+                        env = dict(env0)
+                        for P, w_ in asm0.items():
+                            root = P.split("->")[0].split(".")[0]
+                            env[ren.get(root, root) + P[len(root):]] = w_
+                        if feasible(f, call, env):
+                            out.add(env0[pname])
+        return out
+    sites = []
+    for f in db.all_functions():
+        if not f.relfile.startswith("orc/") or f.body is None:
+            continue
+        for c in f.calls():
+            if c.name not in emit:
+                continue
+            ii, si, rm, fixed_size = emit[c.name]
+            a = c.args()
+            if len(a) <= ii:
+                continue
+            idxs = {v for v, _ in alts(f, a[ii]) if v is not None and not isinstance(v, tuple)}
+            szs = {fixed_size} if si is None else (site_values(f, c, a[si]) if len(a) > si else {None})
+            for ix in idxs:
+                if not (0 <= ix < len(rows)):
+                    continue
+                t = rows[ix].get("type")
+                t = t if isinstance(t, int) else (db.enum(t[1]) if isinstance(t, tuple) else None)
+                sites.append((t, rm, szs, f, c, rows[ix].get("name")))
+    if len(sites) < 100:
+        raise AnalysisBroken("only %d resolved x86 emit sites" % len(sites))
+    n = 0
+    seen = set()
+    for labels, opnd, only_reg, call in fixed:
+        for t in sorted(labels & sized):
+            key = (t, opnd, only_reg)
+            if key in seen:
+                continue
+            seen.add(key)
+            hits = [(f, c, nm) for tt, rm, szs, f, c, nm in sites if tt == t and 8 in szs and (rm == RM_REG or not only_reg)]
+            n += 1
+            rep.check(not hits, rule, "orc/orcx86insn.c::orc_x86_insn_output_asm", "%s:%s%s" % (tnames.get(t, t), opnd, ":reg-form" if only_reg else ""),
+                      "operand `%s` of %s is printed with the 32-bit name; no emit site builds that form with size 8" % (opnd, tnames.get(t, t)),
+                      "the listing prints operand `%s` of an instruction of type %s with orc_x86_get_regname (always the 32-bit name) while the encoder emits "
+                      "REX.W for size 8, and %s (line %s) emits `%s` with size 8: the listing reads e.g. `%s %%ecx, ...` where the machine code is `%s %%rcx, ...`" %
+                      (opnd, tnames.get(t, t), hits[0][0].name if hits else "", hits[0][1].line if hits else "", hits[0][2] if hits else "", hits[0][2] if hits else "", hits[0][2] if hits else ""),
+                      line=call.line)
+    if n < 2:
+        raise AnalysisBroken("no fixed-width register print found in a size-dependent arm (rule has nothing to judge)")
+    return n
+
+
+def check_vex_listing_assembles(db, rep, rule, workdir):
+    """What the listing prints for a VEX instruction must be an instruction.  For every (table row, number of register sources,
+    VEX.128/256) shape that a call of orc_vex_emit_cpuinsn_size / _imm in the library builds, the register class the LISTING
+    prints for each operand is read from orc_x86_insn_output_asm itself - which orc_x86_get_simd_regname call is reached for that
+    shape (exprval.reachable_under) and which prefix it is given (the instruction's own, or a forced VEX.128) - the line is put
+    together in the order of the final format and handed to GNU as.  A line the assembler rejects (`vpsraw %ymm2, %ymm1, %ymm1`:
+    the count of a vector shift is an xmm register whatever the vector length; `vpmovsxwd %ymm2, %ymm2`) means the listing of
+    every program using that shape cannot be assembled, while the machine code is fine."""
+    from facts import AnalysisBroken, access_path, init_rows
+    from exprval import NotPure, evaluate, reachable_under
+    import os
+    from x86guard import IsaOracle
+    tu = db.tu("orcx86insn")
+    lst = tu.fn.get("orc_x86_insn_output_asm")
+    if lst is None:
+        raise AnalysisBroken("orc_x86_insn_output_asm not found")
+    rep.saw(lst)
+    rows = init_rows(tu.global_("orc_x86_opcodes"))
+    RM_REG = db.enum("ORC_X86_RM_REG")
+    V128, V256 = db.enum("ORC_X86_AVX_VEX128_PREFIX"), db.enum("ORC_X86_AVX_VEX256_PREFIX")
+    tnames = {v: k[len("ORC_X86_INSN_TYPE_"):] for k, v in tu.enums.items() if k.startswith("ORC_X86_INSN_TYPE_")}
+
+    def buf_of(c):
+        a = c.parent
+        while a is not None and not (a.k == "CallExpr" and (a.name or "").replace("__builtin___", "").replace("_chk", "") in ("sprintf", "snprintf")):
+            a = a.parent
+        return access_path(strip_casts(a.args()[0])) if a is not None and a.args() else None
+    names = [(c, buf_of(c)) for c in lst.calls("orc_x86_get_simd_regname")]
+    names = [(c, b) for c, b in names if b]
+    if len(names) < 8:
+        raise AnalysisBroken("only %d SIMD register prints found in the listing emitter" % len(names))
+    gpnames = [c for c in lst.calls() if (c.name or "").startswith("orc_x86_get_regname") and buf_of(c)]
+    order = None
+    immbuf = None
+    for c in lst.calls("orc_compiler_append_code"):
+        a = c.args()
+        lit = strip_casts(a[1]) if len(a) > 1 else None
+        if lit is not None and lit.k == "StringLiteral" and lit.get("str", "").lstrip().startswith("v%s"):
+            order = [access_path(strip_casts(x)) for x in a[3:]]
+            immbuf = order[0]
+    if not order or len(order) < 4:
+        raise AnalysisBroken("the final VEX format of the listing emitter was not found")
+    immcalls = [c for c in lst.walk() if c.k == "CallExpr" and (c.name or "").replace("__builtin___", "").replace("_chk", "") in ("sprintf", "snprintf") and c.args()
+                and access_path(strip_casts(c.args()[0])) == immbuf and any("$" in (x.get("str", "") or "") for x in c.walk() if x.k == "StringLiteral")]
+    # shapes built by the emit sites
+    SIG = {"orc_vex_emit_cpuinsn_size": (1, 3, 4, 6), "orc_vex_emit_cpuinsn_imm": (1, 3, 4, 6)}
+    shapes = {}
+    for f in db.all_functions():
+        if not f.relfile.startswith("orc/") or f.body is None:
+            continue
+        for c in f.calls():
+            if c.name not in SIG:
+                continue
+            ri, s0, s1, pi = SIG[c.name]
+            a = c.args()
+            if len(a) <= pi:
+                continue
+            pv = strip_casts(a[pi]).v
+            re_ = strip_casts(a[ri])
+            rvs = [re_.v] if re_.v is not None else []
+            if not rvs and re_.k == "ArraySubscriptExpr" and strip_casts(re_.c[0]) is not None and strip_casts(re_.c[0]).k == "DeclRefExpr":
+                # a row picked from a local table: const int opcodes[] = { ORC_X86_psllw, ... }; opcodes[type]
+                for vd in f.walk():
+                    if vd.k == "VarDecl" and vd.name == strip_casts(re_.c[0]).name and vd.c and vd.c[0] is not None:
+                        rvs = [y.v for y in vd.c[0].walk() if y.v is not None and y.k in ("DeclRefExpr", "IntegerLiteral", "ConstantExpr") and not any(z.v is not None and z is not y for z in y.walk())]
+            if pv is None:
+                continue
+            has0 = strip_casts(a[s0]).v != 0
+            has1 = strip_casts(a[s1]).v != 0
+            for rv in rvs:
+                if 0 <= rv < len(rows):
+                    shapes.setdefault((rv, has0, has1, pv), (f, c))
+    if len(shapes) < 100:
+        raise AnalysisBroken("only %d VEX register-form shapes found at the emit sites" % len(shapes))
+    oracle = IsaOracle(os.path.join(workdir, "vexlst"))
+    lines = {}
+    for (rv, has0, has1, pv), (f, c) in sorted(shapes.items(), key=lambda kv: kv[0]):
+        row = rows[rv]
+        T = row["type"] if isinstance(row.get("type"), int) else db.enum(row["type"][1]) if isinstance(row.get("type"), tuple) else None
+        fl = row.get("flags") if isinstance(row.get("flags"), int) else 0
+        env = {"xinsn->opcode->type": T, "xinsn->type": RM_REG, "xinsn->prefix": pv, "is_sse": pv, "xinsn->src[0]": 65 if has0 else 0, "xinsn->src[1]": 66 if has1 else 0,
+               "xinsn->src[2]": 0, "xinsn->dest": 67, "xinsn->opcode->flags": fl or 0, "xinsn->size": 4, "xinsn->imm": 1}
+        env["operand1"] = env["xinsn->src[1]"] if (has0 and has1) else env["xinsn->src[0]"]
+        env["operand2"] = env["xinsn->src[0]"]
+        env["may_have_avx_operand"] = 1
+        per = {}
+        for k, b in names:
+            if reachable_under(lst, env, lambda e, k=k: e.id == k.id):
+                try:
+                    pc = evaluate(k.args()[1], env)
+                    rg = evaluate(k.args()[0], env)
+                except (NotPure, ValueError):
+                    pc = rg = None
+                per.setdefault(b, []).append((pc, rg))
+        if any(reachable_under(lst, env, lambda e, k=k: e.id == k.id) for k in gpnames):
+            continue                        # a general-register operand is printed for this shape: not reconstructed here
+        if any(len(v) != 1 or v[0][0] is None for v in per.values()) or not per:
+            continue                        # printed operands not determined for this shape (memory-only row, GP operand ...): not judged here
+        ops = []
+        for b in order[1:]:
+            if b in per:
+                pc, rg = per[b][0]
+                if rg in (0, None):
+                    continue
+                ops.append("%%%s%d" % ("ymm" if pc == V256 else "xmm", {65: 1, 66: 2, 67: 3}.get(rg, 4)))
+        imm = "$1, " if any(reachable_under(lst, env, lambda e, k=k: e.id == k.id) for k in immcalls) else ""
+        line = "v%s %s%s" % (row["name"], imm, ", ".join(ops))
+        lines[(rv, has0, has1, pv)] = (line, f, c, T)
+    if len(lines) < 80:
+        raise AnalysisBroken("only %d VEX listing lines reconstructed" % len(lines))
+    lv = oracle.levels([v[0] for v in lines.values()])
+    n = 0
+    for (key, (line, f, c, T)), l in zip(lines.items(), lv):
+        n += 1
+        rep.check(l is not None, rule, "orc/orcx86insn.c::orc_x86_insn_output_asm", "%s:%s:%s" % (rows[key[0]]["name"], "vex256" if key[3] == V256 else "vex128", "%d%d" % (key[1], key[2])),
+                  "`%s` assembles" % line,
+                  "for the instruction %s builds (line %s: row `%s`, type %s, %s) the listing prints `%s`, which GNU as rejects at every ISA level: the "
+                  "register class printed for an operand is not the one the instruction takes, so the listing of any program using it cannot be assembled "
+                  "while the machine code is valid" % (f.name, c.line, rows[key[0]]["name"], tnames.get(T, T), "VEX.256" if key[3] == V256 else "VEX.128", line),
+                  line=c.line)
+    return n
